@@ -1023,6 +1023,29 @@ class Table(Vector):
 	def __pow__(self, other):
 		return self._table_elementwise_operation(other, operator.pow, '__pow__', '**')
 
+	# Reflected forms (scalar op table): the reflected column operation, column by
+	# column, names kept - like table op scalar
+	def __radd__(self, other):
+		return self._table_elementwise_operation(other, lambda col, x: x + col, '__radd__', '+')
+
+	def __rsub__(self, other):
+		return self._table_elementwise_operation(other, lambda col, x: x - col, '__rsub__', '-')
+
+	def __rmul__(self, other):
+		return self._table_elementwise_operation(other, lambda col, x: x * col, '__rmul__', '*')
+
+	def __rtruediv__(self, other):
+		return self._table_elementwise_operation(other, lambda col, x: x / col, '__rtruediv__', '/')
+
+	def __rfloordiv__(self, other):
+		return self._table_elementwise_operation(other, lambda col, x: x // col, '__rfloordiv__', '//')
+
+	def __rmod__(self, other):
+		return self._table_elementwise_operation(other, lambda col, x: x % col, '__rmod__', '%')
+
+	def __rpow__(self, other):
+		return self._table_elementwise_operation(other, lambda col, x: x ** col, '__rpow__', '**')
+
 	@staticmethod
 	def _validate_key_tuple_hashable(key_tuple, key_cols, row_idx):
 		"""
